@@ -454,16 +454,46 @@ Extract the last 7 days if not provided`
 }
 
 // sameFile reports whether two paths name the same file: the same existing file (also through
-// links), or - when one of them does not exist yet - the same absolute path.
+// links), or - when one of them does not exist yet - the same path once the symbolic links on
+// the way to it have been followed.
 func sameFile(a, b string) bool {
 	if ai, err := os.Stat(a); err == nil {
 		if bi, err := os.Stat(b); err == nil {
 			return os.SameFile(ai, bi)
 		}
 	}
-	absA, errA := filepath.Abs(a)
-	absB, errB := filepath.Abs(b)
-	return errA == nil && errB == nil && absA == absB
+	return resolvePath(a) == resolvePath(b)
+}
+
+// resolvePath returns the absolute path a file name leads to, following symbolic links as far as
+// they exist: a dangling link names the file that creating it would create, and a file that does
+// not exist yet is named through its resolved directory.
+func resolvePath(p string) string {
+	abs, err := filepath.Abs(p)
+	if err != nil {
+		return p
+	}
+	for i := 0; i < 32; i++ {
+		if r, err := filepath.EvalSymlinks(abs); err == nil {
+			return r
+		}
+		fi, err := os.Lstat(abs)
+		if err != nil || fi.Mode()&os.ModeSymlink == 0 {
+			break
+		}
+		target, err := os.Readlink(abs)
+		if err != nil {
+			break
+		}
+		if !filepath.IsAbs(target) {
+			target = filepath.Join(filepath.Dir(abs), target)
+		}
+		abs = filepath.Clean(target)
+	}
+	if dir, err := filepath.EvalSymlinks(filepath.Dir(abs)); err == nil {
+		return filepath.Join(dir, filepath.Base(abs))
+	}
+	return abs
 }
 
 // countLines returns the number of lines in a file using a FileReader.
